@@ -253,7 +253,7 @@ func c20Differential(c *c20Case, builtin, loaded map[ipfix.ElementKey]ipfix.Info
 // ---------------------------------------------------------------- phase 3: the model stays what it was, whatever is decoded
 
 const c20HistoryRule = " | phase 3 (histories, TestC20History): 1..8 operations drawn from {decode a generated NetFlow v9 scenario, decode a generated IPFIX scenario, decode a generated sFlow / NetFlow v5 datagram, " +
-	"load scripts/ipfix.elements through the real loader, run the loader on a directory without the file, run it on an installed file that cannot be loaded (a tab for indentation, an element id beyond 16 bits, a directory in its place, octets that are no YAML): the model in force stays what it was}; in half of the scenario operations the loader (with or without the file) runs between the scenario's announcement messages and its data; the scenarios are generated from and their expected records computed with the element types of golden/ipfix_registry.json; " +
+	"load scripts/ipfix.elements through the real loader (installed as a regular file or as a symbolic link to it), run the loader on a directory without the file, run it on an installed file that cannot be loaded (a tab for indentation, an element id beyond 16 bits, a directory in its place, octets that are no YAML): the model in force stays what it was}; in half of the scenario operations the loader (with or without the file) runs between the scenario's announcement messages and its data; the scenarios are generated from and their expected records computed with the element types of golden/ipfix_registry.json; " +
 	"after every operation the live information model must equal the registry snapshot entry by entry (key set, name, type, FieldID) and every scenario must decode to the golden-typed reference; a history case is non-trivial when it has >= 2 different kinds of operation"
 
 type c20Op struct {
@@ -276,6 +276,7 @@ type c20Rig struct {
 	typeOf   map[string]int
 	fileDir  string
 	emptyDir string
+	linkDir  string // ipfix.elements is a symbolic link to the copy in fileDir
 	cleanup  func()
 }
 
@@ -320,12 +321,18 @@ func newC20Rig() (*c20Rig, error) {
 	r.fileDir, r.emptyDir = filepath.Join(dir, "with"), filepath.Join(dir, "without")
 	os.MkdirAll(r.fileDir, 0o755)
 	os.MkdirAll(r.emptyDir, 0o755)
+	r.linkDir = filepath.Join(dir, "linked")
+	os.MkdirAll(r.linkDir, 0o755)
 	raw, err := os.ReadFile(filepath.Join(repoDir(), "scripts", "ipfix.elements"))
 	if err != nil {
 		r.cleanup()
 		return nil, fmt.Errorf("harness: %v", err)
 	}
 	if err := os.WriteFile(filepath.Join(r.fileDir, "ipfix.elements"), raw, 0o644); err != nil {
+		r.cleanup()
+		return nil, fmt.Errorf("harness: %v", err)
+	}
+	if err := os.Symlink(filepath.Join("..", "with", "ipfix.elements"), filepath.Join(r.linkDir, "ipfix.elements")); err != nil {
 		r.cleanup()
 		return nil, fmt.Errorf("harness: %v", err)
 	}
@@ -436,6 +443,14 @@ func (r *c20Rig) run(h *c20History) (v verdict, sig string, err error) {
 				netflow5.NewDecoder([]byte{127, 0, 0, 1}, op.Raw).Decode()
 			}()
 		case "load-file":
+			if len(op.Raw) > 0 && op.Raw[0] == 1 {
+				// the installed file is a symbolic link to the real one (a ConfigMap mount, a packaged default)
+				if e := ipfix.LoadExtElements(r.linkDir); e != nil {
+					return v, "load", fmt.Errorf("operation %d: LoadExtElements on the shipped file behind a symbolic link: %v", i, e)
+				}
+				v.label(true, "elements-file-behind-a-symbolic-link")
+				break
+			}
 			if e := ipfix.LoadExtElements(r.fileDir); e != nil {
 				return v, "load", fmt.Errorf("operation %d: LoadExtElements on the shipped file: %v", i, e)
 			}
@@ -501,6 +516,10 @@ func TestC20History(t *testing.T) {
 				sc := envs[op.Op].GenScenario(t, 2, 3)
 				op.Sc = &sc
 				op.Across = rapid.SampledFrom([]string{"", "", "load-file", "load-absent"}).Draw(t, "across")
+			case "load-file":
+				if rapid.IntRange(0, 2).Draw(t, "vialink") == 0 {
+					op.Raw = []byte{1}
+				}
 			case "load-broken":
 				op.Raw = []byte{byte(rapid.IntRange(0, 3).Draw(t, "brokenkind"))}
 			case "sflow":
